@@ -323,7 +323,20 @@ def run_case(case):
             sim = rebound.Simulation()
             for i in range(N):
                 sim.add(m=r.choice([0.0, 10 ** r.uniform(-6, 1)]) if i else 10 ** r.uniform(-2, 1), x=r.uniform(-10, 10), y=r.uniform(-10, 10), z=r.uniform(-10, 10), vx=r.uniform(-3, 3), vy=r.uniform(-3, 3), vz=r.uniform(-3, 3))
-            nvar = r.choice([0, 0, 1, 2])
+            special = r.choice([None, None, 'p0-at-rest-at-origin', 'com-at-rest-at-origin'])
+            if special == 'p0-at-rest-at-origin':
+                # the usual fresh star: the shift of the real particles is the identity, the variational ones still have to be shifted
+                p0 = sim.particles[0]
+                p0.x = p0.y = p0.z = p0.vx = p0.vy = p0.vz = 0.0
+            elif special == 'com-at-rest-at-origin' and N >= 2:
+                p0, p1 = sim.particles[0], sim.particles[1]
+                p1.m = p0.m
+                p1.x, p1.y, p1.z, p1.vx, p1.vy, p1.vz = -p0.x, -p0.y, -p0.z, -p0.vx, -p0.vy, -p0.vz
+                for i in range(2, N):
+                    sim.particles[i].m = 0.0
+            if special:
+                counters['frame_shifts_from_' + special] = counters.get('frame_shifts_from_' + special, 0) + 1
+            nvar = r.choice([0, 0, 1, 2]) if not special else r.choice([1, 2])
             vars_ = []
             for v in range(nvar):
                 tp = -1
